@@ -451,4 +451,133 @@ theorem encode_eq_ref_full {K : Kernels} (hK : KernelsOK K)
     exact encode_eq_ref hK inp ec hec hcs (modeOf inp) (chooseMode_eq _ _ _) bytes count data seg he
       (fun v hv => funcOK_all v (versionChoice_range hv).1 (versionChoice_range hv).2.1)
 
+/-! ### the whole call against `QRRef.refEncode` -/
+
+theorem versionChoice_eq_ref (inp : EncInput) (ec : EC) (m : Mode) (h d : Nat) :
+    versionChoice inp ec m h d =
+      (match (refConfig inp ec m).version with
+       | some v => if 1 ≤ v ∧ v ≤ 40 ∧ fitsBits v (refConfig inp ec m).ec m h d then some v else none
+       | none => minVersion (refConfig inp ec m).ec m h d) := by
+  unfold versionChoice refConfig
+  cases hv : inp.version with
+  | none => rfl
+  | some hint =>
+    simp only [Option.map_some]
+    by_cases h1 : 1 ≤ versionHintInt hint ∧ versionHintInt hint ≤ 40
+    · by_cases hf : fitsBits (versionHintInt hint).toNat ec m h d = true
+      · rw [if_pos ⟨h1.1, h1.2, hf⟩, if_pos ⟨by omega, by omega, hf⟩]
+      · rw [if_neg (fun hh => hf hh.2.2), if_neg (fun hh => hf hh.2.2)]
+    · rw [if_neg (fun hh => h1 ⟨hh.1, hh.2.1⟩)]
+      by_cases h0 : versionHintInt hint < 1
+      · have : (versionHintInt hint).toNat = 0 := by omega
+        rw [this]; simp
+      · rw [if_neg]
+        intro hh; omega
+
+/-- the version `refEncode` settles on -/
+def refVersion (cfg : Config) (m : Mode) (hl dl : Nat) : Option Nat :=
+  match cfg.version with
+  | some v => if 1 ≤ v ∧ v ≤ 40 ∧ fitsBits v cfg.ec m hl dl then some v else none
+  | none => minVersion cfg.ec m hl dl
+
+/-- the symbol `refEncode` returns once the version is settled -/
+def refSymbolOf (m : Mode) (cfg : Config) (count : Nat) (data : List Bool) (v : Nat) : Symbol :=
+  let hdr := headerBits cfg.eci cfg.gs1 m
+  let dcw := dataCodewordsOf v cfg.ec hdr m count data
+  let cw := finalCodewords v cfg.ec dcw
+  let mask := match cfg.mask with
+    | some k => k
+    | none => chooseMask v cfg.ec cw
+  { mode := m, version := v, mask := mask, dataCodewords := dcw, codewords := cw, matrix := refMatrix v cfg.ec mask cw }
+
+theorem refEncode_unfold (m : Mode) (bytes : List Nat) (cfg : Config) :
+    refEncode m bytes cfg =
+      (encodeData m bytes).bind (fun cd =>
+        (refVersion cfg m (headerBits cfg.eci cfg.gs1 m).length cd.2.length).map (fun v => refSymbolOf m cfg cd.1 cd.2 v)) := by
+  unfold refEncode refVersion
+  cases encodeData m bytes with
+  | none => rfl
+  | some cd =>
+    obtain ⟨count, data⟩ := cd
+    simp only [Option.bind_eq_bind, Option.bind_some]
+    cases cfg.version with
+    | none =>
+      simp only
+      cases minVersion cfg.ec m (headerBits cfg.eci cfg.gs1 m).length data.length <;> rfl
+    | some v =>
+      simp only
+      split <;> rfl
+
+/-- `encode_eq_refEncode`: the mirror of `Encoder_encode` IS the reference encoder `QRRef.refEncode` (ISO/IEC 18004)
+    run on the mode of the reference mode analysis, the mode's byte representation of the content and the
+    configuration the hints amount to: same refusals, and on success the same mode, version, mask pattern, final
+    codeword sequence and matrix (every module). -/
+theorem encode_eq_refEncode {K : Kernels} (hK : KernelsOK K)
+    (inp : EncInput) (ec : EC) (hec : ecOfInt inp.ecLevel = some ec)
+    (hcs : ∀ cs, inp.charset = some cs → cs.known = true)
+    (hsj : ∀ bs, inp.sjis = some bs → ∀ b ∈ bs, b < 256)
+    (hrc : ∀ bs, inp.sjis = some bs → modeOf inp = .kanji → inp.runeCount = bs.length / 2)
+    (he : ∀ e, eciOf inp (modeOf inp) = some e → e < 128) :
+    match (modeBytes inp (modeOf inp)).bind (fun bytes => refEncode (modeOf inp) bytes (refConfig inp ec (modeOf inp))) with
+    | none => encode K inp = .error .writer
+    | some s =>
+      ∃ t, encode K inp = .ok t ∧ t.mode = s.mode ∧ t.version = s.version ∧ t.maskPattern = ((s.mask : Nat) : Int) ∧
+        t.finalBits = bitsOfBytes s.codewords ∧ t.matrix = refByteMatrix s.version ec s.mask s.codewords ∧
+        t.matrix.bytes.map (fun r => r.map (· == 1)) = s.matrix := by
+  have hfull := encode_eq_ref_full hK inp ec hec hcs hsj hrc he
+  generalize hm : modeOf inp = m at hfull ⊢
+  unfold refSegment at hfull
+  cases hb : modeBytes inp m with
+  | none => rw [hb] at hfull; simpa using hfull
+  | some bytes =>
+    rw [hb] at hfull
+    simp only [Option.bind_some] at hfull ⊢
+    rw [refEncode_unfold]
+    cases hd : encodeData m bytes with
+    | none => rw [hd] at hfull; simpa using hfull
+    | some cd =>
+      obtain ⟨count, data⟩ := cd
+      rw [hd] at hfull
+      simp only at hfull
+      simp only [Option.bind_some]
+      have hvc : refVersion (refConfig inp ec m) m (headerBits (refConfig inp ec m).eci (refConfig inp ec m).gs1 m).length data.length =
+          versionChoice inp ec m (headerBits (eciOf inp m) (gs1OfHint inp.gs1) m).length data.length :=
+        (versionChoice_eq_ref inp ec m _ _).symm
+      rw [hvc]
+      cases hch : versionChoice inp ec m (headerBits (eciOf inp m) (gs1OfHint inp.gs1) m).length data.length with
+      | none => rw [hch] at hfull; simpa using hfull
+      | some v =>
+        rw [hch] at hfull
+        simp only at hfull
+        obtain ⟨t, ht, hmode, hv, hhd, hmask, hfb, hmat⟩ := hfull
+        simp only [Option.map_some]
+        have hcw : (refSymbolOf m (refConfig inp ec m) count data v).codewords = refCodewords v ec t.headerAndDataBits := by
+          rw [hhd]; rfl
+        have hmk : (refSymbolOf m (refConfig inp ec m) count data v).mask = finalMask inp.mask v ec t.headerAndDataBits := by
+          unfold finalMask
+          rw [← hcw]
+          unfold refSymbolOf refConfig
+          simp only
+          by_cases hauto : maskOfHint inp.mask = -1
+          · simp only [hauto, if_true]
+          · simp only [hauto, if_false]
+        have hver : (refSymbolOf m (refConfig inp ec m) count data v).version = v := rfl
+        have hmat2 : (refSymbolOf m (refConfig inp ec m) count data v).matrix =
+            refMatrix v ec (refSymbolOf m (refConfig inp ec m) count data v).mask
+              (refSymbolOf m (refConfig inp ec m) count data v).codewords := rfl
+        refine ⟨t, ht, hmode, hv, ?_, ?_, ?_, ?_⟩
+        · rw [hmk]; exact hmask
+        · rw [hcw]; exact hfb
+        · rw [hver, hmk, hcw]; exact hmat
+        · rw [hmat, hmat2, hmk, hcw]
+          unfold refByteMatrix
+          simp only [List.map_map]
+          rw [List.map_congr_left (g := id)]
+          · simp
+          · intro r _
+            simp only [Function.comp, id]
+            rw [List.map_map, List.map_congr_left (g := id)]
+            · simp
+            · intro b _; cases b <;> rfl
+
 end Gzx.QREnc
